@@ -30,3 +30,6 @@ CHECKS["C19"] = c13_check.run
 import c20_check
 CHECKS["C20"] = c20_check.run
 CHECKS["C18"] = c20_check.run
+
+import c12_check
+CHECKS["C12"] = c12_check.run
